@@ -39,10 +39,11 @@ def c13(work, tier, seed, replay):
     with open(tp, "w") as out:
         for em in (("id",) if tier == "quick" else ("id", "pow2", "huge")):
             part = work.path("feedpart.ndjson")
-            o, dt = run_driver(["feed", "-in", sp, "-out", part, "-seed", str(seed), "-embed", em, "-par", "1024"], timeout=3000)
-            rep.notes.append(o.strip() + " (%.0fs: the library backoff cannot be shortened, scenarios run in parallel)" % dt)
-            out.write(open(part).read())
-            os.remove(part)
+            for stub in ([], ["-stub"]):       # the real witness behind Main's adapter, and the harness' reference witness (recording stub)
+                o, dt = run_driver(["feed", "-in", sp, "-out", part, "-seed", str(seed), "-embed", em, "-par", "1024"] + stub, timeout=3000)
+                rep.notes.append(o.strip() + " %s(%.0fs: the library backoff cannot be shortened, scenarios run in parallel)" % ("[reference witness] " if stub else "", dt))
+                out.write(open(part).read())
+                os.remove(part)
     events = read_ndjson(tp)
     jc = dict(F_BASE, TraceFile=tp)
     jr = tlc(work, "MC_Trace_Feeder", cfg_text(spec="Spec", constants=jc, action_constraints=["Monitor"], postcondition="Done"), name="judge-feeder", workers=1, timeout=3600, heap="12g")
